@@ -1,6 +1,7 @@
 #include <eav.h>
 #include <ctype.h>
 #include <eav/private.h>
+#include <eav/verif_hooks.h>
 
 /*
  * local-part = word *("." word)
@@ -39,7 +40,10 @@ is_822_local (const char *start, const char *end)
     if (start == end)
         return inverse(EEAV_LPART_EMPTY);
 
-    for (cp = start; cp < end && (ch = *(unsigned char *) cp) != 0; cp++) {
+    for (cp = start; cp < end && (ch = *(unsigned char *) cp) != 0; cp++)
+    EAV_VERIF_LOOP(is_822_local)
+    {
+        EAV_VERIF_STEP(is_822_local)
         if (ch > 127)
             return inverse(EEAV_LPART_NOT_ASCII);
         if (!quote) {
@@ -88,6 +92,7 @@ is_822_local (const char *start, const char *end)
                     cp += 2;
                 else /* invalid folding syntax */
                     return inverse(EEAV_LPART_INVALID_FOLDING);
+                EAV_VERIF_AT(is_822_local_fold)
                 break;
             }
             /* XXX: there is should be a check for single LF ... */
